@@ -235,10 +235,11 @@ prop(
     "handler's derivation path; the observed bytes are parsed with encoding/json and must be exactly one newline-terminated object with members severity (ERROR iff level >= Error) and message (== reference line). Derivation trees over every "
     "attribute-count vector {0,1,2,3}^d (3 siblings per level, all derived before any logs, 4 logging orders), one Record handed to two siblings, Enabled on levels -8..12, 6 option sets (nil, levels, ReplaceAttr compositions, AddSource), "
     "hostile messages/keys/values of every slog.Kind. Concurrent stage under -race: 2..32 goroutines log records with unique ids through a 7-handler tree onto ONE shared writer - deliberately unsynchronised in even rounds so the race "
-    "detector reports a missing lock, counting overlapping Writes in odd rounds - and the multiset of written lines must equal the multiset of reference lines. A derivation tree / round is one case",
+    "detector reports a missing lock, counting overlapping Writes in odd rounds - and the multiset of written lines must equal the multiset of reference lines. Fault stages: the shared writer panics in one of its first Writes (later records must still come out), and values whose LogValue/String/MarshalText/Error "
+    "method logs through the root, a sibling, the same or a child handler while being formatted (both records must come out; a handler stuck for 30 s is reported). A derivation tree / round is one case",
     [st("sequential", "c19", "TestSequential", timeout_q=600, timeout_t=2400), st("concurrent", "c19", "TestConcurrent", race=True, timeout_q=600, timeout_t=2400),
-     st("writer_fault", "c19", "TestWriterFault", timeout_q=600, timeout_t=600)],
-    floors=[dict(stage="sequential", key="evaluations", min=100_000), dict(stage="concurrent", key="records", min=50_000)],
+     st("writer_fault", "c19", "TestWriterFault", timeout_q=600, timeout_t=600), st("reentrant", "c19", "TestReentrant", timeout_q=600, timeout_t=600)],
+    floors=[dict(stage="sequential", key="evaluations", min=100_000), dict(stage="concurrent", key="records", min=50_000), dict(stage="reentrant", key="reentrant_records", min=100)],
     assumptions=[STDLIB, "key order and escaping style of the JSON are not part of the property (semantic comparison)", "records on which the reference text handler itself panics are not compared (counted)"],
 )
 
